@@ -147,6 +147,10 @@ def corner_molecules():
         ("CH3Cl", mk([("C",), ("Cl",), ("H",), ("H",), ("H",)], [(0, 1, 1), (0, 2, 1), (0, 3, 1), (0, 4, 1)]), "v3000"),
         ("nitrite", mk([("O", {"chg": -1}), ("N",), ("O",)], [(0, 1, 1), (1, 2, 2)]), "v2000-block"),
         ("T-anion-Li", mk([("T", {"chg": -1}), ("Li", {"chg": 1})], []), "v2000-block"),
+        # a bond line whose two atom indices are equal: both readers accept it
+        ("self-bonded", mk([("C",), ("O",), ("N",), ("H",)], [(0, 1, 2), (0, 2, 1), (2, 2, 2), (2, 3, 1)]), "v3000"),
+        ("allyl-radical-1", mk([("C", {"rad": 2}), ("C",), ("C",), ("H",), ("H",), ("H",), ("H",), ("H",)], [(0, 1, 1), (1, 2, 2), (0, 3, 1), (0, 4, 1), (1, 5, 1), (2, 6, 1), (2, 7, 1)]), "v3000"),
+        ("allyl-radical-3", mk([("C",), ("C",), ("C", {"rad": 2}), ("H",), ("H",), ("H",), ("H",), ("H",)], [(0, 1, 2), (1, 2, 1), (0, 3, 1), (0, 4, 1), (1, 5, 1), (2, 6, 1), (2, 7, 1)]), "v3000"),
     ]
 
 
@@ -163,6 +167,23 @@ def redraw(mol, rng):
         atoms.append(b)
     bonds = [(ab, rng.choice([1, 2, 3, 4])) for ab, t in mol["bonds"]]
     return {"atoms": atoms, "bonds": bonds}
+
+
+def move_labels(mol, rng):
+    """Same atoms and bonds in the same order; the radical / isotope labels sit on
+    other atoms of the same element (another molecule on the same skeleton).
+    None if the molecule offers no such move."""
+    atoms = [dict(a) for a in mol["atoms"]]
+    moved = False
+    for key in ("rad", "mass"):
+        for i, a in enumerate(atoms):
+            if key in a and rng.random() < 0.8:
+                cands = [j for j, b in enumerate(atoms) if j != i and b["sym"] == a["sym"] and key not in b]
+                if cands:
+                    j = rng.choice(cands)
+                    atoms[j][key] = atoms[i].pop(key)
+                    moved = True
+    return {"atoms": atoms, "bonds": list(mol["bonds"])} if moved else None
 
 
 def render_v3000(mol, rng=None, name="sim"):
@@ -544,11 +565,21 @@ def build_pool_molfiles(master, repo, n_corpus, n_random, n_big, n_bad):
             # a redrawing of the same skeleton in the same atom order
             rid = pool.add("T", render(redraw(mol, rng), f"sim{k}r"), pool.mol_valid, src="redrawn", of=tid)
             pool.redrawn[tid] = rid
+        elif rng.random() < 0.6:
+            mv = move_labels(mol, rng)
+            if mv is not None:
+                # another molecule on the same skeleton and numbering (labels moved)
+                rid = pool.add("T", render(mv, f"sim{k}m"), pool.mol_valid, src="labels-moved", of=tid)
+                pool.redrawn[tid] = rid
     for name, mol, how in corner_molecules():
         if how == "v3000":
-            pool.add("T", render_v3000(mol, rng, name), pool.mol_valid, src="corner-v3000")
+            pool.add("T", render_v3000(mol, rng, name), pool.mol_valid, src="corner-v3000", name=name)
         else:
-            pool.add("T", render_v2000(mol, rng, name, use_prop_lines=(how == "v2000-lines")), pool.mol_valid, src="corner-" + how)
+            pool.add("T", render_v2000(mol, rng, name, use_prop_lines=(how == "v2000-lines")), pool.mol_valid, src="corner-" + how, name=name)
+    by_name = {pool.meta[t].get("name"): t for t in pool.mol_valid if pool.meta[t].get("name")}
+    if "allyl-radical-1" in by_name and "allyl-radical-3" in by_name:
+        pool.redrawn[by_name["allyl-radical-1"]] = by_name["allyl-radical-3"]
+        pool.redrawn[by_name["allyl-radical-3"]] = by_name["allyl-radical-1"]
     for k, mol in enumerate(symmetric_molecules(rng)):
         if rng.random() < 0.3:
             pool.add("T", render_v2000(mol, rng, f"sym{k}"), pool.mol_valid, src="symmetric-v2000")
